@@ -35,6 +35,8 @@ pub enum Obs {
     Eq,
     Hash,
     Clone,
+    /// `Display` (vek's `Display` impls of vectors and matrices format every element)
+    Display,
     /// `Ord` / `PartialOrd` (used by `Iterator::{max, min, cmp, lt, is_sorted, ..}` on elements in flight)
     Cmp,
 }
@@ -105,12 +107,14 @@ impl Anomaly {
 pub struct Ledger {
     pub entries: Vec<Entry>,
     pub anomalies: Vec<Anomaly>,
+    /// every observation in order: (kind, id of the bit pattern looked at); cleared by `reset` / `take_obs_log`
+    pub obs_log: Vec<(Obs, u32)>,
     pub who: Who,
     pub ctx: Ctx,
 }
 
 thread_local! {
-    static LEDGER: RefCell<Ledger> = RefCell::new(Ledger { entries: Vec::new(), anomalies: Vec::new(), who: Who::Container, ctx: Ctx::Plain });
+    static LEDGER: RefCell<Ledger> = RefCell::new(Ledger { entries: Vec::new(), anomalies: Vec::new(), obs_log: Vec::new(), who: Who::Container, ctx: Ctx::Plain });
 }
 
 fn with<R>(f: impl FnOnce(&mut Ledger) -> R) -> Option<R> {
@@ -123,6 +127,7 @@ pub fn reset() {
     with(|l| {
         l.entries.clear();
         l.anomalies.clear();
+        l.obs_log.clear();
         l.who = Who::Container;
         l.ctx = Ctx::Plain;
     });
@@ -159,6 +164,7 @@ impl Default for Tracked {
 fn observe(t: &Tracked, obs: Obs) {
     with(|l| {
         let ctx = l.ctx;
+        l.obs_log.push((obs, t.id));
         match l.entries.get_mut(t.id as usize) {
             Some(e) if e.val == t.val => {
                 e.observed += 1;
@@ -185,6 +191,13 @@ impl Clone for Tracked {
 impl fmt::Debug for Tracked {
     fn fmt(&self, f: &mut fmt::Formatter) -> fmt::Result {
         observe(self, Obs::Debug);
+        write!(f, "t{}", self.val)
+    }
+}
+
+impl fmt::Display for Tracked {
+    fn fmt(&self, f: &mut fmt::Formatter) -> fmt::Result {
+        observe(self, Obs::Display);
         write!(f, "t{}", self.val)
     }
 }
@@ -287,6 +300,11 @@ pub fn with_ctx<R>(ctx: Ctx, f: impl FnOnce() -> R) -> R {
     let prev = with(|l| std::mem::replace(&mut l.ctx, ctx)).unwrap_or(Ctx::Plain);
     let _r = Restore(prev);
     f()
+}
+
+/// The observations since the last call (or `reset`), in order.
+pub fn take_obs_log() -> Vec<(Obs, u32)> {
+    with(|l| std::mem::take(&mut l.obs_log)).unwrap_or_default()
 }
 
 pub fn take_anomalies() -> Vec<Anomaly> {
